@@ -244,6 +244,10 @@ func (e *Engine) verifyFunc(vc *VC, fn *ssa.Function, c *Contract) {
 	for _, r := range c.Requires {
 		vc.assert(sc.evalBool(r.X))
 	}
+	for _, r := range c.AssumedPre {
+		vc.note("ASSUMED (unchecked at call sites) precondition: " + r.Src)
+		vc.assert(sc.evalBool(r.X))
+	}
 	vc.cover(entry, "cover", "precondition is satisfiable")
 	for _, k := range e.known {
 		if k.Function == c.Key() && k.x != nil {
@@ -288,6 +292,9 @@ func (e *Engine) verifyFunc(vc *VC, fn *ssa.Function, c *Contract) {
 			o := vc.oblige(exit, "post", fmt.Sprintf("ensures #%d: %s", i+1, en.Src), post.evalBool(en.X))
 			o.Pos = fmt.Sprintf("%s:%d", shortPath(en.File), en.Line)
 		}
+		for _, en := range c.Assumed {
+			vc.note("ASSUMED (unproved) postcondition in this function's contract, used by its callers: " + en.Src)
+		}
 		if c.PanicsIff != nil {
 			vc.oblige(exit, "nopanic", "normal return implies !( "+c.PanicsIff.Src+" )", not(allowed))
 		}
@@ -305,8 +312,16 @@ func (e *Engine) verifyFunc(vc *VC, fn *ssa.Function, c *Contract) {
 func (e *Engine) frameObligations(vc *VC, fx *fexec, sc *SpecCtx, c *Contract, entry, exit *State) {
 	// allowed targets per component
 	allowed := map[string][]Term{}
+	allowedAll := map[string]bool{}
 	for _, a := range c.Assigns {
 		switch a.X.K {
+		case "cell":
+			l := vc.locOfPtr(sc.eval(a.X.Args[0]))
+			allowed[l.Comp] = append(allowed[l.Comp], l.Ref)
+		case "allfield":
+			st, path := sc.structField(a.X)
+			comp, _ := vc.fieldComp(st, path)
+			allowedAll[comp] = true
 		case "ghost":
 			allowed["GH_"+smtQuote(a.X.Op)] = append(allowed["GH_"+smtQuote(a.X.Op)], intLit(1))
 		case "sel":
@@ -338,7 +353,7 @@ func (e *Engine) frameObligations(vc *VC, fx *fexec, sc *SpecCtx, c *Contract, e
 		srt := vc.compSort[comp]
 		now := exit.heap[comp]
 		was := vc.heapGet(entry, comp, srt)
-		if now.S == was.S {
+		if now.S == was.S || allowedAll[comp] {
 			continue
 		}
 		r := Term{"q_fr", SInt}
